@@ -2,7 +2,7 @@
    and concrete instances showing that the hypotheses of every main theorem are satisfiable. *)
 From Coq Require Import List Bool Arith Lia ZArith.
 From QV Require Import Base.Mat Base.Zi C01.Model C01.Spec C01.Lib C01.ProofsCtrl C01.ProofsMat
-  C01.ProofsRun C01.ProofsFused C01.ProofsQueue C01.ProofsDM C01.ProofsDMCor.
+  C01.ProofsRun C01.ProofsFused C01.ProofsQueue C01.ProofsDM C01.ProofsDMCor C01.ModelExtra C01.ProofsGram C01.ProofsExtra.
 Import ListNotations.
 
 Lemma Zi_semiring : semiring Ziops.
@@ -112,3 +112,24 @@ Example ex_queue_value :
   mvmul Ziops (unitary_queue Ziops 3 ex_queue) ex_psi = execute_queue Ziops 3 ex_queue ex_psi
   /\ execute_queue Ziops 3 ex_queue ex_psi <> ex_psi.
 Proof. split; [vm_compute; reflexivity|vm_compute; discriminate]. Qed.
+
+(* Gram forms: a mixed, non-Hermitian combination of two rank-one terms on 3 qubits *)
+Definition ex_phi : vec Zi := [(0, 1); (1, 0); (0, 0); (2, 1); (1, -1); (0, 0); (3, 0); (0, -2)]%Z.
+Definition ex_terms : list (term (T:=Zi)) := [((2, 0)%Z, ex_psi, ex_psi); ((1, 1)%Z, ex_phi, ex_psi)].
+Example ex_terms_ok : Forall (term_ok 3) ex_terms.
+Proof. repeat constructor. Qed.
+Example ex_gram_value :
+  execute_dm Ziops zi_conj 3 ex_circuit (gram Ziops zi_conj 3 ex_terms)
+  = gram Ziops zi_conj 3 (map (map_term (execute Ziops 3 ex_circuit) (execute Ziops 3 ex_circuit)) ex_terms)
+  /\ gram Ziops zi_conj 3 ex_terms <> madj Ziops zi_conj 3 (gram Ziops zi_conj 3 ex_terms)
+  /\ ex_rho = gram Ziops zi_conj 3 (gram_of Ziops 3 ex_rho).
+Proof. repeat split; try (vm_compute; reflexivity). vm_compute. discriminate. Qed.
+
+(* default initial state and a queue with a FusedGate in density-matrix mode *)
+Example ex_default_value :
+  execute_circuit_dm Ziops zi_conj 3 ex_circuit (DInitNone)
+  = option_map (fun psi => outer Ziops zi_conj 3 psi psi) (execute_circuit Ziops 3 ex_circuit (InitNone))
+  /\ execute_circuit Ziops 3 ex_circuit (InitArray [(1, 0)%Z]) = None
+  /\ execute_dm_queue Ziops zi_conj 3 ex_queue ex_rho
+     = sandwich Ziops zi_conj 3 (circ_op Ziops 3 (flatten ex_queue)) ex_rho.
+Proof. repeat split; vm_compute; reflexivity. Qed.
